@@ -510,7 +510,73 @@ def node_level_worker(part, arg):
                 continue
             v2, f2, _ = mesh.merge_vertices(v, f, 1e-6)
             surface_oracle(part, v2, f2, pos, np.zeros((0, 3)), (pos.min(axis=0) - 8.0, pos.max(axis=0) + 8.0), case, "node-level:%s" % route)
+            # ... and every vertex still lies near the level set (a factor 3 in density is more than half a grid step at this spacing)
+            ratio = np.asarray(pro.rho(np.asarray(v, dtype=np.float64)), dtype=float) / iso
+            part.dev("node_level_density_ratio_max", float(ratio.max()))
+            if not (ratio.max() <= 3.0) or not (ratio.min() >= 1.0 / 3.0):
+                part.fail("node-level:off-surface:%s" % route, "promolecule surface (%s) of %s at the density of a grid node (isovalue %.6g): %d vertices lie at densities %.3g .. %.3g "
+                          "times the isovalue" % (route, arg, iso, int(((ratio > 3.0) | (ratio < 1.0 / 3.0)).sum()), float(ratio.min()), float(ratio.max())), case)
             part.outcome(("nodelevel", route, ti))
+    part.nstates(1)
+
+
+def lattice_cluster(radius, pert, shift):
+    g = np.arange(-6, 7) * 1.54
+    P = np.array(list(itertools.product(g, g, g)))
+    P = P[np.linalg.norm(P, axis=1) <= radius]
+    k = np.arange(len(P))
+    return P + pert * np.c_[np.sin(1 + 1.7 * k), np.cos(2 + 2.3 * k), np.sin(3 + 0.7 * k)] + shift
+
+
+# (radius, perturbation, separation, shift): carbon clusters on a 1.54 A lattice whose default-isovalue surface passes through a node of
+# the sampling grid at the given separation (found by scanning placements; the first five are the inputs of the finding fixed in
+# surface.smooth_laplacian), and neighbours of them that do not
+NODE_HIT_CLUSTERS = [(3.5, 0.0, 0.25, 0.0), (3.5, 0.0, 0.25, 0.37), (6.5, 0.03, 0.25, 0.0), (6.5, 0.03, 0.25, 0.013), (3.5, 0.0, 0.25, 0.013), (3.5, 0.03, 0.25, 0.0),
+                     (5.0, 0.0, 0.25, 0.0), (5.0, 0.03, 0.3, 0.37), (3.5, 0.0, 0.5, 0.0), (5.0, 0.0, 0.5, 0.0), (3.5, 0.0, 1.0, 0.0)]
+
+
+def cluster_surface_worker(part, spec):
+    """
+    larger molecules (57..305 atoms) at the default isovalue through both user routes with the DEFAULT smoothing and without: closed oriented
+    surface round all atoms, every vertex near the level set.  Big surfaces cross many grid nodes; where the field at a node equals the
+    isovalue to float32 accuracy the mesher emits coincident vertices, which whatever post-processes the mesh must survive
+    """
+    from chmpy import PromoleculeDensity
+    from chmpy.core.element import Element
+    from chmpy.core.molecule import Molecule
+    from chmpy.surface import promolecule_density_isosurface
+
+    radius, pert, sep, shift = spec
+    pos = lattice_cluster(radius, pert, shift)
+    zs = np.full(len(pos), 6)
+    pro = PromoleculeDensity((zs, pos))
+    case = {"kind": "cluster-surface", "spec": list(spec)}
+    for route in ("function", "function-unsmoothed", "molecule"):
+        part.ev()
+        part.tr()
+        try:
+            if route == "molecule":
+                tm = Molecule([Element.from_atomic_number(6)] * len(pos), pos.copy()).promolecule_density_isosurface(separation=sep)
+                v, f = np.asarray(tm.vertices), np.asarray(tm.faces)
+            else:
+                m_ = promolecule_density_isosurface(pro, sep=sep, **({"smoothing": None} if route.endswith("unsmoothed") else {}))
+                v, f = np.asarray(m_.vertices), np.asarray(m_.faces)
+        except Exception as e:
+            part.fail("cluster-surface:raise:%s" % route, "promolecule surface (%s) of a %d-atom cluster at separation %g raised %s: %s" % (route, len(pos), sep, type(e).__name__, str(e)[:80]), case)
+            continue
+        if f.size == 0 or not (f.min() >= 0) or f.max() >= len(v):
+            part.fail("cluster-surface:indices:%s" % route, "promolecule surface (%s) of a %d-atom cluster: invalid face indices" % (route, len(pos)), case)
+            continue
+        ratio = np.asarray(pro.rho(np.asarray(v, dtype=np.float64)), dtype=float) / 0.002
+        part.dev("cluster_density_ratio_max", float(ratio.max()))
+        bound = 1.5 if sep <= 0.3 else 3.0 if sep <= 0.5 else 8.0
+        if not (ratio.max() <= bound) or not (ratio.min() >= 1.0 / bound):
+            part.fail("cluster-surface:off-surface:%s" % route, "promolecule surface (%s) of a %d-atom carbon cluster (radius %g, separation %g, shift %g): %d of %d vertices lie at densities "
+                      "%.3g .. %.3g times the isovalue" % (route, len(pos), radius, sep, shift, int(((ratio > bound) | (ratio < 1.0 / bound)).sum()), len(v), float(ratio.min()), float(ratio.max())), case)
+            continue
+        v2, f2, _ = mesh.merge_vertices(v, f, 1e-6)
+        surface_oracle(part, v2, f2, pos, np.zeros((0, 3)), (pos.min(axis=0) - 8.0, pos.max(axis=0) + 8.0), case, "cluster-surface:%s" % route)
+        part.outcome(("cluster-surface", route, sep))
     part.nstates(1)
 
 
@@ -586,6 +652,9 @@ def wrapper_worker(part, job):
         return
     if which == "node-level":
         node_level_worker(part, arg)
+        return
+    if which == "cluster-surface":
+        cluster_surface_worker(part, tuple(arg))
         return
     part.ev()
     part.tr()
@@ -705,6 +774,12 @@ def run(ctx):
         if name in ("H2O", "CO2", "CH4"):
             jobs.append(("wrap", ("node-level", name)))
     jobs.append(("wrap", ("cavity", "C60")))
+    jobs += [("wrap", ("cluster-surface", spec)) for spec in NODE_HIT_CLUSTERS]
+    if ctx.thorough:
+        # a sweep of placements and separations round the listed ones, and the sampling grids beyond 2^20 and 2^21 points
+        jobs += [("wrap", ("cluster-surface", (r, pt, sep, sh))) for r in (3.5, 5.0) for pt in (0.0, 0.03) for sep in (0.2, 0.25, 0.3, 0.4) for sh in (0.0, 0.013, 0.37, 0.5)
+                 if (r, pt, sep, sh) not in NODE_HIT_CLUSTERS]
+    jobs += [("wrap", ("cluster-surface", spec)) for spec in ([(6.5, 0.03, 0.2, 0.0)] + ([(8.0, 0.03, 0.2, 0.0)] if ctx.thorough else []))]
     for f in ("acetic_acid.cif", "iceII.cif"):
         jobs.append(("wrap", ("crystal-hirshfeld", f)))
         jobs.append(("wrap", ("crystal-promolecule", f)))
@@ -752,5 +827,7 @@ def replay(ctx, case):
         cavity_worker(ctx, None)
     elif k == "nodelevel":
         node_level_worker(ctx, case["mol"])
+    elif k == "cluster-surface":
+        cluster_surface_worker(ctx, tuple(case["spec"]))
     elif k == "wrapper":
         wrapper_worker(ctx, tuple(case["job"]))
